@@ -118,7 +118,7 @@ Fixpoint class_spec (pgE : env -> expr -> nat -> sres) (cls start : nat)
       match pgE E e q with
       | Match v q' => class_spec pgE cls start ms'
                         (match name with Some x => (x, v) :: E | None => E end) q'
-                        (if isfield then v :: acc else acc)
+                        (match field_name name isfield with Some _ => v :: acc | None => acc end)
       | other => other end
   end.
 
@@ -194,7 +194,7 @@ Fixpoint peg (n : nat) (E : env) (e : expr) (p : nat) : sres :=
             | Match _ _ => Raise
             | other => other end
         | other => other end
-    | Let x a body => match peg n E a p with
+    | Let x _ a body => match peg n E a p with
                       | Match v p1 => peg n ((x, v) :: E) body p1
                       | other => other end
     | Class cls ms => class_spec (peg n) cls p ms E p []
